@@ -19,12 +19,13 @@ import (
 var VerifDir = "/verif"
 
 type Finding struct {
-	Property string `json:"property"`
-	ID       string `json:"id"`
-	Status   string `json:"status"` // "known" | "fixed"
-	Match    string `json:"match"`  // exact key of the failing obligation
-	Commit   string `json:"commit,omitempty"`
-	What     string `json:"what"`
+	Property string   `json:"property"`
+	ID       string   `json:"id"`
+	Status   string   `json:"status"`          // "known" | "fixed"
+	Match    string   `json:"match"`           // exact key of the failing obligation
+	Cells    []string `json:"cells,omitempty"` // further exact keys of the same defect (one per failing input)
+	Commit   string   `json:"commit,omitempty"`
+	What     string   `json:"what"`
 }
 
 type Violation struct {
@@ -137,11 +138,9 @@ func (r *Report) Violate(key, what, replayContent string) {
 		}
 	}
 	v := Violation{Key: key, What: what}
-	for _, f := range r.known {
-		if f.Property == r.Property && f.Status == "known" && f.Match == key {
-			v.Known = true
-			v.What = f.What
-		}
+	if f := r.knownFor(key); f != nil {
+		v.Known = true
+		v.What = f.What
 	}
 	if !v.Known {
 		dir := filepath.Join(VerifDir, "replays")
@@ -151,6 +150,33 @@ func (r *Report) Violate(key, what, replayContent string) {
 		os.WriteFile(v.Replay, []byte("property: "+r.Property+"\nobligation: "+key+"\n"+what+"\n\n"+replayContent), 0o644)
 	}
 	r.Violations = append(r.Violations, v)
+}
+
+// knownFor returns the listed known finding with exactly this key (nil if there is none).
+func (r *Report) knownFor(key string) *Finding {
+	for i := range r.known {
+		f := &r.known[i]
+		if f.Property != r.Property || f.Status != "known" {
+			continue
+		}
+		if f.Match == key {
+			return f
+		}
+		for _, c := range f.Cells {
+			if c == key {
+				return f
+			}
+		}
+	}
+	return nil
+}
+
+// IsKnown reports whether key is listed as a known finding (such a violation needs no replay: it
+// was replayed when it was recorded).
+func (r *Report) IsKnown(key string) bool {
+	r.mu.Lock()
+	defer r.mu.Unlock()
+	return r.knownFor(key) != nil
 }
 
 func sanitize(s string) string {
@@ -181,9 +207,23 @@ func keys(m map[string]bool) []string {
 func (r *Report) Finish() int {
 	wall := time.Since(r.Start).Seconds()
 	unknownViol := 0
+	knownCount := map[string]int{}
 	for _, v := range r.Violations {
 		if v.Known {
-			fmt.Printf("KNOWN-FINDING: property=%s %s [%s]\n", r.Property, v.What, v.Key)
+			knownCount[v.What]++
+		}
+	}
+	for _, v := range r.Violations {
+		if v.Known {
+			// one line per listed finding (a finding of a table harness has one key per failing cell)
+			if n := knownCount[v.What]; n > 0 {
+				knownCount[v.What] = 0
+				if n == 1 {
+					fmt.Printf("KNOWN-FINDING: property=%s %s [%s]\n", r.Property, v.What, v.Key)
+				} else {
+					fmt.Printf("KNOWN-FINDING: property=%s %s [%d listed cells, first %s]\n", r.Property, v.What, n, v.Key)
+				}
+			}
 		} else {
 			unknownViol++
 			fmt.Printf("VIOLATION property=%s replay=%s\n", r.Property, v.Replay)
